@@ -168,6 +168,19 @@ extern "C" void harness(void)
   t = false; n0 = vf_nreports;
   try { b.f(x); } catch (vf_reported &) { t = true; }
   VCLAIM(14, t && vf_nreports == n0 + 1 && vf_last.fatal, "C14.saturated_expectations_follow_the_move");
+#elif VF_SCENE == 11   /* a side effect calls another mock function of the same object (recursive lock), then RETURN uses its result */
+  M m;
+  int inner = 0; unsigned order = 0, at_inner = 0, at_outer = 0;
+#line 340
+  ALLOW_CALL(m, g(ANY(int))).LR_SIDE_EFFECT(at_inner = ++order).RETURN(_1 + 1);
+#line 350
+  auto e = NAMED_REQUIRE_CALL(m, f(ANY(int))).LR_SIDE_EFFECT(inner = m.g(_1)).LR_SIDE_EFFECT(at_outer = ++order).LR_RETURN(inner);
+  int r = m.f(x);
+  VCLAIM(8, r == x + 1 && vf_nreports == 0, "C08.recursive_mock_call_from_side_effect");
+  VCLAIM(8, at_inner == 1 && at_outer == 2, "C08.side_effects_in_order_around_recursive_call");
+  VCLAIM(8, e->is_saturated(), "C08.outer_call_counted_once");
+  VCLAIM(16, vf_nok == 2, "C16.one_ok_report_per_accepted_call_also_when_nested");
+  VCLAIM(12, verif_lock_depth() == 0, "C12.recursive_lock_balanced");
 #endif
   verif_reach();
 }
